@@ -194,7 +194,7 @@ def main(tier):
         ev.sample({"kind": "fuzz", "input_latin1": s})
 
     # (a) Hypothesis
-    n = 6000 if tier == "quick" else 200000
+    n = 6000 if tier == "quick" else 100000
     failures = hyp.run("c18", ev, tier, n)
     confirmed = hyp.confirm("c18", failures, PID)
 
